@@ -198,6 +198,96 @@ def judge_mhistory(ctx, case, resp):
     return None
 
 
+# ---------------------------------------------------------------------------------------------------------
+# part 3: FEEL over a caller's scope that holds the functions a built model makes of its knowledge models and decision services
+# ---------------------------------------------------------------------------------------------------------
+
+MF_FORMS = ["{C}", "[gg, {C}, gg, hh]", "{r: {C}, s: gg}.s", "[{C}, {C}]", "for i in [1, 2] return [i, {C}, hh]", "if {C} = null then gg else gg",
+            "[gg, hh][{C} = null or true]", "some x in [1] satisfies [{C}, gg][2] = gg"]
+
+
+def gen_mfeel(src):
+    from ..oracles import drg_gen
+    shape = src.choice(["direct+service", "multi-out-service", "service-layers", "bkm-chain", "bkm-by-invocation", None])
+    c = drg_gen.gen_case(src, n_inputs=1, fd_ok=False, shape=shape)
+    m = c["model"]
+    idm = drg_gen.ids(m)
+    funcs = [["bkm", idm[b["name"]], b["name"]] for b in m["bkms"]] + [["ds", idm[x["name"]], x["name"]] for x in m["services"]]
+    bindings = [["gg", {"s": "hello"}], ["hh", {"n": "7"}]]
+    texts, k = [], 0
+    for kind, fid, name in (src.sample(funcs, min(len(funcs), 3)) if funcs else []):
+        names = []
+        for _, w in drg_gen.gen_input(src, m, name):
+            bindings.append(["a%d" % k, w])
+            names.append("a%d" % k)
+            k += 1
+        if names and src.bool(0.1):
+            names = names[:-1]              # too few arguments: the invocation is null, the scope as before
+        call = "%s(%s)" % (name, ", ".join(names))
+        for form in src.sample(MF_FORMS, src.int(1, 3)):
+            texts.append([form, form.replace("{C}", call), kind])
+    cut = src.int(0, len(bindings))
+    return {"xml": c["xml"], "funcs": [[f[0], f[1]] for f in funcs], "scope": [bindings[:cut], bindings[cut:]] if src.bool(0.5) else [bindings], "texts": texts}
+
+
+def reqs_mfeel(case):
+    return [{"op": "mfeel", "xml": case["xml"], "funcs": case["funcs"], "scope": case["scope"], "texts": [t[1] for t in case["texts"]], "repeat": 2}]
+
+
+def judge_mfeel(ctx, case, resp):
+    r = resp[0]
+    if "timeout" in r and "panic" not in r and "died" not in r:
+        ctx.note(key=h(case), labels=["timeout: not judged (slow generated model)"])
+        return None
+    if "panic" in r or "died" in r:
+        ctx.note(key=h(case), labels=["crash(C12)"])
+        return Fail("C13/crash@%s" % r.get("location", "?"), "evaluation over model functions crashed: %r" % (r,))
+    if "results" not in r:
+        ctx.note(key=h(case), labels=["model-functions", "model-not-built(C04)"])
+        return None
+    labels = ["model-functions", "functions:%d" % len(r.get("bound", []))]
+    hello, seven = {"s": "hello"}, None
+    nontrivial = False
+    for (form, text, kind), res in zip(case["texts"], r["results"]):
+        if "values" not in res:
+            labels.append("model-functions:not-parsed")
+            continue
+        labels.append("model-functions:" + kind)
+        nontrivial = True
+        before = res["scope_before"]
+        if res["scope_after_parse"] != before:
+            return Fail("C13/parse-changes-scope", "parsing %r changed the scope\n  before %s\n  after  %s" % (text, before, res["scope_after_parse"]))
+        for n, after in enumerate(res["scope_after"]):
+            if after != before:
+                return Fail("C13/eval-changes-scope", "evaluation %d of %r changed the caller's scope\n  before %s\n  after  %s" % (n + 1, text, before, after))
+        a, b = res["values"][0], res["values"][1]
+        if not val.same(val.from_wire(a), val.from_wire(b)):
+            return Fail("C13/not-repeatable", "%r gave %s and then %s over the same scope" % (text, val.show(val.from_wire(a)), val.show(val.from_wire(b))))
+        # what the caller's own names denote next to the invocation, in the same evaluation
+        v = a
+        items = v.get("l") if isinstance(v, dict) else None
+        bad = None
+        if form == "[gg, {C}, gg, hh]":
+            bad = not (items and len(items) == 4 and items[0] == hello and items[2] == hello and isinstance(items[3], dict) and items[3].get("n") == "7")
+        elif form in ("{r: {C}, s: gg}.s", "if {C} = null then gg else gg"):
+            bad = v != hello
+        elif form == "[{C}, {C}]":
+            bad = not (items and len(items) == 2 and val.same(val.from_wire(items[0]), val.from_wire(items[1])))
+        elif form == "for i in [1, 2] return [i, {C}, hh]":
+            bad = not (items and len(items) == 2 and all(isinstance(x, dict) and len(x.get("l", [])) == 3 and x["l"][0].get("n") == str(i + 1)
+                                                        and x["l"][2].get("n") == "7" for i, x in enumerate(items))
+                       and val.same(val.from_wire(items[0]["l"][1]), val.from_wire(items[1]["l"][1])))
+        elif form == "[gg, hh][{C} = null or true]":
+            bad = not (items and len(items) == 2 and items[0] == hello)
+        elif form == "some x in [1] satisfies [{C}, gg][2] = gg":
+            bad = v is not True
+        if bad:
+            return Fail("C13/invocation-disturbs-the-callers-names", "%r evaluates to %s: the names of the caller next to the invocation do not denote their values "
+                        "(gg = \"hello\", hh = 7), or two invocations with the same arguments differ" % (text, val.show(val.from_wire(v))))
+    ctx.note(key=h(case), nontrivial=nontrivial, labels=labels, sample={"texts": [t[1] for t in case["texts"]][:3], "functions": r.get("bound")})
+    return None
+
+
 DEPTHS = [2, 20, 100, 200, 250, 254, 255, 256, 257, 258, 300, 400]
 
 
@@ -254,12 +344,14 @@ def setup(ctx):
     ctx.p_hist = ctx.register(Part("history", gen_history, reqs_history, judge_history))
     ctx.p_mhist = ctx.register(Part("model-history", gen_mhistory, reqs_mhistory, judge_mhistory))
     ctx.p_deep = ctx.register(Part("deep", None, reqs_history, judge_history))
+    ctx.p_mfeel = ctx.register(Part("model-functions", gen_mfeel, reqs_mfeel, judge_mfeel))
 
 
 def run(ctx):
     ctx.enumerate(ctx.p_deep, enum_deep(ctx), batch=5, name="constructs that push a context, nested %s deep, in a fixed history" % DEPTHS, exhaustive=True)
     ctx.forall(ctx.p_hist, ctx.scale(20000, 400000), batch=50)
     ctx.forall(ctx.p_mhist, ctx.scale(8000, 160000), batch=25)
+    ctx.forall(ctx.p_mfeel, ctx.scale(6000, 120000), batch=25)
     if ctx.thorough() and ctx.w == 0:
         fuzz_phase(ctx)
 
